@@ -345,52 +345,61 @@ func c06(r *Report) {
 				r.Touch(f)
 				h := c.Call.Args[1]
 				key := "host tested non-empty before issuing in " + fnName(f)
-				// every path from entry to the call passes the false edge of (h == "")
-				gf := G(f)
-				var stops []ssa.Instruction
-				var emptyEdges []*ssa.BasicBlock
-				for _, in := range instrs(f) {
-					b, ok := in.(*ssa.BinOp)
-					if !ok || (b.Op != token.EQL && b.Op != token.NEQ) {
-						continue
-					}
-					s1, c1 := constString(b.X)
-					s2, c2 := constString(b.Y)
-					other := b.X
-					if c1 && s1 == "" {
-						other = b.Y
-					} else if !(c2 && s2 == "") {
-						continue
-					}
-					if other != h && pathOf(other) != pathOf(h) {
-						continue
-					}
-					for _, e := range branchesOn(b) {
-						nonEmpty, empty := e.False, e.True
-						if b.Op == token.NEQ {
-							nonEmpty, empty = e.True, e.False
+				// on every path from the entry to the call, the value the name
+				// resolves to on that path was compared with "" and the path
+				// took the non-empty edge
+				paths, okp := blockPathsUntil(f.Blocks[0], c.Block(), 4000)
+				if !okp || len(paths) == 0 {
+					r.Undecided(key, "cannot enumerate the paths to the cert() call")
+					continue
+				}
+				ok := true
+				for _, p := range paths {
+					for _, leaf := range resolveOnPath(h, p) {
+						tested := false
+						for i := 0; i+1 < len(p); i++ {
+							blk := p[i]
+							iff, isIf := blk.Instrs[len(blk.Instrs)-1].(*ssa.If)
+							if !isIf {
+								continue
+							}
+							b, isB := iff.Cond.(*ssa.BinOp)
+							if !isB || (b.Op != token.EQL && b.Op != token.NEQ) {
+								continue
+							}
+							s1, c1 := constString(b.X)
+							s2, c2 := constString(b.Y)
+							other := b.X
+							if c1 && s1 == "" {
+								other = b.Y
+							} else if !(c2 && s2 == "") {
+								continue
+							}
+							same := other == leaf || (pathOf(other) != "" && pathOf(other) == pathOf(leaf))
+							if !same {
+								for _, ol := range resolveOnPath(other, p[:i+1]) {
+									if ol == leaf || (pathOf(ol) != "" && pathOf(ol) == pathOf(leaf)) {
+										same = true
+									}
+								}
+							}
+							if !same {
+								continue
+							}
+							nonEmpty := blk.Succs[1]
+							if b.Op == token.NEQ {
+								nonEmpty = blk.Succs[0]
+							}
+							if p[i+1] == nonEmpty {
+								tested = true
+							}
 						}
-						stops = append(stops, blockStart(nonEmpty)...)
-						emptyEdges = append(emptyEdges, empty)
-					}
-				}
-				isStop := func(i ssa.Instruction) bool {
-					for _, s := range stops {
-						if s == i {
-							return true
+						if !tested {
+							ok = false
 						}
 					}
-					return false
 				}
-				p := gf.PathTo([]ssa.Instruction{gf.Entry()}, true, isStop, func(i ssa.Instruction) bool { return i == ssa.Instruction(c) })
-				ok := len(stops) > 0 && p == nil
-				// and the empty edge never reaches the call
-				for _, e := range emptyEdges {
-					if gf.PathTo(blockStart(e), true, nil, func(i ssa.Instruction) bool { return i == ssa.Instruction(c) }) != nil {
-						ok = false
-					}
-				}
-				r.Paths++
+				r.Paths += len(paths)
 				r.Decide("path", key, ok, "the name passed to cert() was compared with \"\" and the empty edge does not issue", "a certificate can be issued for an empty host name (no SNI and no fallback host): an arbitrary certificate instead of a refusal", c.Pos())
 			}
 		}
